@@ -153,6 +153,15 @@ Theorem C02_pypi_accepts_partial p : pv_wf p -> s_release p <> [] -> s_epoch p <
 Proof. exact (c02_accepts p). Qed.
 Print Assumptions C02_pypi_accepts_partial.
 
+(* ... in particular the normalised form of every string of the grammar within those bounds *)
+Theorem C02_pypi_accepts_strings s p : spec_parse s = Some p -> s_epoch p <= 255 ->
+  Forall (fun n => n < infinity) (s_release p) ->
+  exists v, parse_pypi (spec_normal p) = Ok v.
+Proof.
+  intros S. destruct (spec_parse_wf s p S) as [W Ne]. exact (c02_accepts p W Ne).
+Qed.
+Print Assumptions C02_pypi_accepts_strings.
+
 (* Spellings that the reference accepts and Parse rejects, but which are not normalised
    forms (the property does not demand them): 10A1-dev1 (normal form 10a1.dev1, accepted)
    and 2_A.1 (normal form 2a1, accepted). *)
